@@ -376,14 +376,8 @@ def run(ctx):
             ctx.ok("R6", f"{mn} reads {sorted(used)} (all attached by the decorators)", m.relpath)
         else:
             ctx.violate("R6", f"{mn} reads {sorted(used - allatt)}, which the decorators do not attach", relpath=m.relpath, function=mn, construct="docs consumer attrs")
-    # CLI help enumerates with the same hasattr test
-    mm = prog.module("iodata.__main__")
-    hs = [n for n in ast.walk(mm.tree) if isinstance(n, ast.Call) and isinstance(n.func, ast.Name) and n.func.id == "hasattr" and len(n.args) == 2 and isinstance(n.args[1], ast.Constant)]
-    ops_help = {n.args[1].value for n in hs}
-    if ops_help == set(OPS):
-        ctx.ok("R6", "CLI help enumerates the registry with hasattr(module, op) for the four operations", mm.relpath)
-    else:
-        ctx.violate("R6", f"CLI help tests {sorted(ops_help)} instead of the four operations", relpath=mm.relpath, function="iodata.__main__.DESCRIPTION", construct="help hasattr ops")
+    # the CLI help lists, per operation, the formats that have it: the module-level DESCRIPTION evaluated on a model registry
+    _check_cli_help(ctx)
 
     # ------------------------------------------------------------------ R7
     ctx.rule("R7", "the decorators attach the declared lists as written (evaluated)", "the lists that iodata reports for a format differ from the ones its source declares (names wrapped in markup, a default shared between functions, lists swapped)")
@@ -636,3 +630,44 @@ def check_selection_table(ctx, rid, which=("format", "input")):
             ctx.violate(rid, f"_select_input_module{bad[0]} on a model registry (prog, other) gives `{bad[1]}`, expected `{bad[2]}`", f, f.node, construct=f"input selection {bad[0]}: {bad[1]}")
         else:
             ctx.ok(rid, f"_select_input_module: registered names give their module, any other name FileFormatError ({len(table)} requests)", f.where)
+
+
+def _check_cli_help(ctx):
+    """`iodata.__main__.DESCRIPTION` (built at import time from the registry) evaluated with a model registry: under each
+    of the four operations the help names exactly the formats that have that operation."""
+    from ..accessors import AccessorEval, Raised, Rec, _Expr
+    from ..symarr import NotSymbolic
+
+    prog = ctx.prog
+    mm = prog.module("iodata.__main__")
+    b = mm.bindings.get("DESCRIPTION")
+    if b is None or getattr(b, "value", None) is None:
+        raise AnalysisError("iodata.__main__.DESCRIPTION not found")
+    mods = {"zeta": Rec(None, load_one=1), "alpha": Rec(None, load_one=1, dump_one=1, load_many=1, dump_many=1), "mid": Rec(None, dump_one=1, load_many=1)}
+    ev = AccessorEval(prog, None, limit=4000)
+    ev.module = mm
+    ev._globals = {("iodata.api", "FORMAT_MODULES"): mods}
+    try:
+        text = _Expr({}, ev).eval(b.value)
+    except Raised as exc:
+        ctx.violate("R6", f"the CLI help text raises {exc.args[0]} when built from a model registry", relpath=mm.relpath, function="iodata.__main__.DESCRIPTION", construct="cli help raises")
+        return
+    except NotSymbolic as exc:
+        raise AnalysisError(f"iodata.__main__.DESCRIPTION is outside the evaluation whitelist: {exc}") from exc
+    if not isinstance(text, str):
+        raise AnalysisError("iodata.__main__.DESCRIPTION does not evaluate to a string")
+    lines = [ln.strip() for ln in text.split("\n")]
+    bad = None
+    for op in OPS:
+        if op not in lines:
+            bad = f"the help has no entry for `{op}`"
+            break
+        listed = lines[lines.index(op) + 1].split() if lines.index(op) + 1 < len(lines) else []
+        want = sorted(k for k, v in mods.items() if op in v.fields)
+        if listed != want:
+            bad = f"under `{op}` the help lists {listed}; the registry modules that have it are {want}"
+            break
+    if bad:
+        ctx.violate("R6", f"CLI help (model registry zeta: load_one; alpha: all four; mid: dump_one, load_many): {bad}", relpath=mm.relpath, function="iodata.__main__.DESCRIPTION", construct=f"cli help: {bad}"[:150])
+    else:
+        ctx.ok("R6", "CLI help: under each of the four operations exactly the formats that have it, sorted (DESCRIPTION evaluated on a model registry)", mm.relpath)
